@@ -117,7 +117,14 @@ func (r *recSigner) SignRequest(pKey crypto.PrivateKey, pubKeyId string, req *ht
 	}
 	w.Signs = append(w.Signs, txSign{Task: t.ID, Body: append([]byte(nil), body...), Hdr: hdr, URL: req.URL.String(), Seq: len(s.Log)})
 	s.logEv(Event{Kind: "signer." + r.name, ID: req.URL.String(), Arg: len(body)})
-	return r.real.SignRequest(pKey, pubKeyId, req, body)
+	err := r.real.SignRequest(pKey, pubKeyId, req, body)
+	if err != nil {
+		// the real signer refused (e.g. a signed-header list that names Digest and a request without body bytes):
+		// a failed attempt that never reaches the HTTP client, like an injected signer failure
+		w.SignFails = append(w.SignFails, txAttempt{Task: t.ID, Method: req.Method, URL: req.URL.String(), Fate: "sign_refused", Seq: len(s.Log)})
+		s.probe("c19-real-signer-refused")
+	}
+	return err
 }
 
 func (r *recSigner) SignResponse(pKey crypto.PrivateKey, pubKeyId string, rw http.ResponseWriter, body []byte) error {
